@@ -923,6 +923,20 @@ func visibilityPackages() []*pkgSpec {
 	return []*pkgSpec{plain, value, rec, foreign, foreignRec}
 }
 
+// hotOrd: the derived Ord of a struct in HList representation (22 fields and more) goes through
+// ord.HCons, whose Less costs 2^k steps when the k-th field is the first that differs (each
+// level asks the next one twice); the deciding field is therefore put at positions 1, 21, 22
+// and at most 24 (2^24 steps, a fraction of a second), not at the 30th.
+func hotOrd(t *target, n int) {
+	if t.TC == Ord && n >= 22 {
+		last := n
+		if last > 24 {
+			last = 24
+		}
+		t.Opt = fmt.Sprintf("lawlib.Opt{Hot: []int{1, 21, 22, %d}}", last)
+	}
+}
+
 // fieldCountPackages: the number of fields decides the representation (TupleN up to 21 fields,
 // an HList from 22 on); int and string fields alternate, the values are a one-hot walk.
 func fieldCountPackages() []*pkgSpec {
@@ -953,6 +967,7 @@ func fieldCountPackages() []*pkgSpec {
 			n := n
 			p.addTyped("plain", fmt.Sprintf("field-count/%d", n), typeSpec{name: fmt.Sprintf("F%d", n), decl: decl(fmt.Sprintf("F%d", n), n, false), tcs: all}, all, func(t *target) {
 				t.Counts = append(t.Counts, fmt.Sprintf("field-count/%d", n))
+				hotOrd(t, n)
 			})
 		}
 		out = append(out, p)
@@ -962,6 +977,7 @@ func fieldCountPackages() []*pkgSpec {
 		n := n
 		p.addTyped("plain", fmt.Sprintf("field-count/fp.Value/%d", n), typeSpec{name: fmt.Sprintf("VF%d", n), decl: decl(fmt.Sprintf("VF%d", n), n, true), tcs: all}, all, func(t *target) {
 			t.Counts = append(t.Counts, fmt.Sprintf("field-count/fp.Value/%d", n))
+			hotOrd(t, n)
 		})
 	}
 	out = append(out, p)
